@@ -88,6 +88,38 @@ def build(kind: str, sc: Scene):
         for a in range(3):
             e.chop(a, count=2)
         return [e], [[e]], [], 8, None
+    if kind in ("revolve_placed", "revolved_ring_placed", "wedge_placed"):
+        # built where it is simplest and then PLACED with the library's own transformations, as user scripts do: every arc
+        # of a revolved operation stays an arc about the (transformed) axis
+        from .c07 import rot as rot_own, scl as scl_own
+        if kind == "revolve_placed":
+            axis_p, axis_d = [0.3, 0.0, -0.2], [0.1, -1.0, 0.15]
+            e = cb.Revolve(cb.Face([[1, 0, 0], [2, 0.1, 0], [2.1, 1, 0.1], [1, 1.2, 0]]), rng.uniform(0.3, 1.5), axis_d, axis_p)
+            for a in range(3):
+                e.chop(a, count=2)
+            nverts = 8
+        elif kind == "wedge_placed":
+            axis_p, axis_d = [0.0, 0.0, 0.0], [1.0, 0.0, 0.0]
+            e = cb.Wedge(cb.Face([[0, 0.5, 0], [1.5, 0.5, 0], [1.4, 1.2, 0], [0.1, 1.0, 0]]))
+            e.chop(0, count=2)
+            e.chop(1, count=2)
+            nverts = 8
+        else:
+            n = rng.choice([3, 5, 8])
+            axis_p, axis_d = [0.0, 0.0, 0.0], [2.0, 0.0, 0.0]
+            e = cb.RevolvedRing(axis_p, [2, 0, 0], cb.Face([[0.2, 1.0, 0], [1.2, 1.0, 0], [1.1, 1.8, 0], [0.3, 1.6, 0]]), n)
+            chop_round(e)
+            nverts = 4 * n
+        a1, ax1, o1 = rng.uniform(-2.5, 2.5), [rng.uniform(-1, 1) for _ in range(3)], [rng.uniform(-2, 2) for _ in range(3)]
+        k, o2 = rng.choice([0.3, 1.0, 4.0]), [rng.uniform(-2, 2) for _ in range(3)]
+        d = [rng.uniform(-5, 5) for _ in range(3)]
+        e.rotate(a1, ax1, o1)
+        e.scale(k, o2)
+        e.translate(d)
+        place = lambda p: vadd(scl_own(rot_own(p, a1, ax1, o1), k, o2), d)     # noqa: E731
+        q0, q1 = place(axis_p), place(vadd(axis_p, axis_d))
+        sc.s = k
+        return [e], [[e]], [], nverts, ("about-axis", q0, vsub(q1, q0), 0, 0, 0)
     if kind == "cylinder":
         e = cb.Cylinder(P([0, 0, 0]), P([0, 0, h]), P([r, 0, 0]))
         chop_round(e)
@@ -240,7 +272,7 @@ def build(kind: str, sc: Scene):
     raise ValueError(kind)
 
 
-KINDS = ["box", "extrude", "revolve", "cylinder", "semicylinder", "frustum", "elbow", "extruded_ring", "revolved_ring", "hemisphere",
+KINDS = ["box", "extrude", "revolve", "revolve_placed", "revolved_ring_placed", "wedge_placed", "cylinder", "semicylinder", "frustum", "elbow", "extruded_ring", "revolved_ring", "hemisphere",
          "shell", "onecore", "fourcore", "halfdisk", "oval", "wrapped", "splinedisk", "halfsplinedisk", "quartersplinedisk", "splinering",
          "extruded_stack", "revolved_stack", "transformed_stack", "ljoint", "tjoint", "njoint3", "njoint4", "njoint5",
          "chain_a", "chain_b", "chain_c", "expand", "fill_contract", "ring_chain"]
@@ -275,7 +307,20 @@ def record(ctx: Ctx, rid: int, kind: str, rng: random.Random, write: bool = True
         k += n
     # outer arcs on the intended circle / cone
     arcs_ok = True
-    if circ is not None:
+    if circ is not None and circ[0] == "about-axis":
+        _, a0, adir = circ[:3]
+        adir = vmul(adir, 1.0 / vnorm(adir))
+        for edge in mesh.edge_list.edges:
+            if edge.kind not in ("origin", "arc", "angle"):
+                continue
+            info = []
+            for p in (list(edge.vertex_1.position), list(edge.third_point.position), list(edge.vertex_2.position)):
+                rel = vsub(p, a0)
+                ax = vdot(rel, adir)
+                info.append((ax, vnorm(vsub(rel, vmul(adir, ax)))))
+            if max(abs(info[i][j] - info[0][j]) for i in (1, 2) for j in (0, 1)) > 1e-6 * max(1.0, sc.s):
+                arcs_ok = False
+    elif circ is not None:
         _, a0, adir, r1, r2, hh = circ
         adir = vmul(adir, 1.0 / vnorm(adir))
         for edge in mesh.edge_list.edges:
